@@ -12,44 +12,62 @@ PID = "C06"
 THEOREM_MODULES = ["GuppyVerif.Props.C06"]
 DRIVER = "C06"
 RULE = (
-    "programs of the core fragment (qubit / int / struct / tuple variables; allocation, move, owned and "
-    "borrowed calls, measure/discard/h, tuple build/unpack, field read, field assign, return; if / while / "
-    "while True / break / continue) generated valid-by-construction over an abstract ownership state, then hit "
-    "with 0-2 near-miss mutations (drop / duplicate a statement, owned<->borrowed callee, guard a statement by "
-    "`if c`/`while c`, retarget a place, early return, swap branch bodies); printed as Guppy source, checked by the real check(); the CFG the "
-    "real compiler hands to check_cfg_linearity is extracted and sent to the Lean model; an independent oracle "
-    "explores all (program point, owned-leaf-set) states of the abstract program. non-trivial = the program has a "
-    "branch or loop and a linear leaf that is live across a block boundary, or is rejected; distinct by source text"
+    "programs of the core fragment (qubit / int / bool / struct / nested struct / tuple variables; allocation, move, owned and "
+    "borrowed calls, measure/discard/h/cx, tuple build/unpack, tuple element and field read, field assign, return; if / while / "
+    "while True / break / continue). Three streams: (1) the hand-written corpus (facts of DESIGN.md, gap witnesses); (2) a small "
+    "scope enumerated systematically: 5 control skeletons x {owned, borrowed, local} x 4 slots x 5 actions, on a qubit and on a "
+    "struct field (thorough: all 18750, quick: a sample); (3) random programs generated valid-by-construction over an abstract "
+    "ownership state (branches and loop bodies are repaired to agree), then hit with 0-2 near-miss mutations (drop / duplicate a "
+    "statement, duplicate it elsewhere, owned<->borrowed callee, guard by `if c` / `while c`, retarget a source or a target place, "
+    "drop a call's target, drop a break/continue, early return, flip a parameter's ownership, swap branches). Each program is "
+    "printed as Guppy source and checked by the real check(); the CheckedCFG the real compiler hands to check_cfg_linearity is "
+    "captured, translated and sent to the Lean model (verdict and error class compared); an independent oracle explores every "
+    "reachable (program point, owned-leaf set) state of the abstract program (exact, no unrolling bound) and gives the expected "
+    "verdict. Programs the type checker rejects before linearity checking are skipped and counted. non-trivial = rejected, or "
+    "accepted with a branch or loop; distinct by source text"
 )
 ASSUMPTIONS = [
     "the Lean model Model/Linearity.lean is hand-written; its agreement with linearity_checker.py is established by the "
     "same-input correspondence run here (verdict and error class on the CFG extracted from the real compiler)",
-    "the harness' translation of the checked AST (PlaceNode / GlobalCall / Tuple / TupleUnpack) into the model's flat "
-    "statements and of types into leaf ids is trusted (own code, independent of leaf_places); programs it cannot translate are skipped and counted",
-    "the place-level liveness worklist is the C09 model (Model/Dataflow.lean); its termination within the model's fuel is "
-    "observed on every case (result `fuel` would be reported), not proved",
-    "reading of 'leak on an infinite path': a linear value is leaked when it is owned at a point from which no "
-    "continuation reads it (so `while True: pass` leaks an owned qubit, `while c: pass; use(q)` does not)",
+    "the harness' translation of the checked AST (PlaceNode / GlobalCall / Tuple / TupleUnpack / Return / branch predicate) into "
+    "the model's flat statements and of types into leaf ids is trusted (own code, independent of leaf_places); programs it cannot "
+    "translate are skipped and counted",
+    "the place-level liveness worklist is the C09 model (Model/Dataflow.lean), characterised by the C09 theorem liveRun_correct "
+    "for any scheduler; its termination within the model's fuel is observed on every case (result `fuel` would be reported), not proved",
+    "reading of 'leak on an infinite path': a linear value is leaked when it is owned at a point from which no continuation "
+    "reads it (so `while True: pass` leaks an owned qubit, `while c: pass; use(q)` does not); a borrowed value may idle on a "
+    "path that never returns",
+    "every CFG handed to the model is checked to have the shape Prog.WF (driver reply bad-wf otherwise); leaf types of the "
+    "fragment are linear (qubit) or copyable+droppable (int, bool)",
 ]
 UNMODELLED = [
     "nested expressions (calls as arguments), comprehensions, subscripts/arrays, nested functions and captures, "
-    "partial application, modifiers (`with control`), affine types (non-copyable but droppable), generics",
-    "the surface->CFG builder (the model takes the checked CFG; C03/C08 cover the builder)",
-    "diagnostic payload beyond the error class (spans, notes)",
+    "partial application, modifiers (`with control`), affine types (non-copyable but droppable), generics, variables that change type",
+    "the surface->CFG builder and the type checker's block signatures (the model takes the checked CFG; C03/C08 cover them); "
+    "a place that is in no scope is the model outcome `crash`, never observed",
+    "diagnostic payload beyond the error class (spans, notes); when a place is both used later for real and implicitly returned "
+    "the model allows AlreadyUsedError or BorrowSubPlaceUsedError (the real choice depends on dict order)",
 ]
 MANIFEST = {
-    "level_text": "Lean theorems over an executable model of linearity_checker.py (both passes, place-level liveness via the C09 "
-    "worklist), for all CFGs of the flat core fragment with arbitrary leaf decompositions, no size bound: soundness (accept => on "
-    "every path from the entry every linear leaf is used only while owned, never overwritten while owned, nothing but the borrowed "
-    "leaves is owned at the exit, no owned leaf is ever dead, borrowed leaves are not lost in non-terminating loops, no whole "
-    "borrowed variable is moved or reassigned) and completeness (those path conditions + ownership rules => the model does not "
-    "reject). Model tied to /repo on every run: generated programs are checked by the real check(), the CFG given to "
-    "check_cfg_linearity is extracted and replayed in the model (verdict + error class), and an independent state-space oracle "
-    "on the abstract program gives the expected verdict.",
-    "level_note": "Trusted: Lean kernel + propext/Classical.choice/Quot.sound; the statement of path goodness in Spec/C06.lean; the "
-    "extraction of the real CFG into the model's input; the generator's reach (sampling). The theorems are about the model; "
-    "nested expressions, arrays, comprehensions, closures are outside the fragment.",
-    "technique": "Lean 4 proof over a hand-written model + differential correspondence on the real compiler's CFG + independent path-semantics oracle",
+    "level_text": "Lean theorems over an executable model of linearity_checker.py (both passes; place-level liveness = the C09 "
+    "worklist), for all CFGs of the flat core fragment with arbitrary decomposition of places into leaves (variables, struct "
+    "fields, tuple elements, nested), no size bound. lin_sound: the model accepts => on every path from the entry (finite or "
+    "infinite) every linear leaf is used only while owned and never overwritten while owned, exactly the borrowed leaves are "
+    "owned at the exit, an owned leaf always has a continuation that reads it (a borrowed one may idle on a path that never "
+    "returns), and no whole borrowed variable is moved/consumed/returned/reassigned nor a linear result dropped in reachable "
+    "code. lin_complete_partial: outside two known gaps (borrowed arguments + non-terminating regions: NoGap) these conditions "
+    "imply that the model raises no user error (only the internal outcomes crash/fuel remain). lin_complete_false_G1/G2: the "
+    "unrestricted converse is false of the code (concrete witnesses, replayed on the real checker, known findings). Tie on every "
+    "run: generated programs are checked by the real check(), the CFG given to check_cfg_linearity is extracted and replayed in "
+    "the model (verdict + error class), and an independent exact state-space oracle on the abstract program gives the expected "
+    "verdict (quick ~400 programs; thorough: all 18750 programs of a small scope + 12000 random near-misses).",
+    "level_note": "Trusted: Lean kernel + propext/Classical.choice/Quot.sound; the statement of path goodness in Spec/C06.lean "
+    "(my reading of 'leak' on infinite paths: owned but dead); the extraction of the real CFG into the model's input and the shape "
+    "assumption Prog.WF (checked per case); the generator's reach (sampling; exhaustive only in the small scope). The theorems are "
+    "about the model; nested expressions, arrays, comprehensions, closures, affine types are outside the fragment; termination of "
+    "the liveness worklist is observed, not proved.",
+    "technique": "Lean 4 proof over a hand-written model (using the C09 liveness theorems) + differential correspondence on the real "
+    "compiler's CFG + independent exact path-semantics oracle",
     "design_ref": "DESIGN.md §5 C06",
     "ready": False,
 }
@@ -403,7 +421,9 @@ def _hook():
 
     def wrap(cfg, func_name, globals):
         _CAP[func_name] = cfg
-        return orig(cfg, func_name, globals)
+        res = orig(cfg, func_name, globals)
+        _CAP[func_name + "#res"] = res
+        return res
 
     lc.check_cfg_linearity = wrap
     _hooked = True
@@ -590,7 +610,18 @@ def run_real(src):
         req, note = None, ""
         if cfg is not None:
             try:
-                req = _Enc().prog(cfg)
+                enc = _Enc()
+                req = enc.prog(cfg)
+                res = _CAP.get("f#res")
+                if out == "ok" and res is not None:
+                    # the refined input rows of the result CFG = place-level live_before of the real run
+                    rows = []
+                    for bb in res.bbs:
+                        if bb is res.entry_bb or bb is res.exit_bb:
+                            continue
+                        ls = sorted({enc._leaf(enc.place_key(pl), pl.ty) for pl in bb.sig.input_row})
+                        rows.append("(" + " ".join(map(str, [bb.idx] + ls)) + ")")
+                    note = "live:" + " ".join(rows)
             except Unsupported as u:
                 note = "unsupported: " + str(u)
         if out == "ok":
@@ -986,7 +1017,8 @@ def mutate(prog, rng):
     if not addrs:
         return None
     conds = [v for v, _b in p["params"] if v[0] == "c"]
-    kind = rng.choice(["drop", "dup", "swap", "guard_if", "guard_while", "retarget", "early_ret", "flip_param", "swap_branches", "dup_later"])
+    kind = rng.choice(["drop", "dup", "swap", "guard_if", "guard_while", "retarget", "early_ret", "flip_param", "swap_branches",
+                       "dup_later", "retarget_tgt", "drop_tgt", "drop_break"])
     addr = rng.choice(addrs)
     ss, i = _get_list(body, addr)
     s = ss[i]
@@ -1037,6 +1069,25 @@ def mutate(prog, rng):
         if not pool:
             return None
         srcs[k] = rng.choice(pool)
+    elif kind == "retarget_tgt":
+        # assign to another place of the same type (overwrite of a live value, shadowing of a borrowed variable)
+        if s[0] not in ("call", "move") or not s[1]:
+            return None
+        k = rng.randrange(len(s[1]))
+        ty = place_type(_t2(s[1][k]))
+        pool = sorted({_t2(a) for a in _all_places(body) + [(v, ()) for v, _b in p["params"]]
+                       if place_type(_t2(a)) == ty and not any(isinstance(e, int) for e in a[1])} - {_t2(s[1][k])}, key=str)
+        if not pool:
+            return None
+        s[1][k] = rng.choice(pool)
+    elif kind == "drop_tgt":
+        if s[0] != "call" or not s[1]:
+            return None
+        s[1] = []
+    elif kind == "drop_break":
+        if s[0] not in ("break", "continue"):
+            return None
+        del ss[i]
     elif kind == "early_ret":
         if p["ret"] is not None or not conds:
             return None
@@ -1173,7 +1224,7 @@ def evaluate(ctx, cases):
         nontrivial = outcome == "reject" or _has_ctrl(prog["body"])
         ctx.count(src, nontrivial=nontrivial, kind=kind)
         for t in tags or ["valid"]:
-            ctx.bump("gen:" + t)
+            ctx.bump("gen:" + t.split(":")[0])
         replay = {"program": prog, "source": src, "real": [outcome, cls], "oracle": list(orc), "model": model,
                   "tags": tags, "origin": origin, "note": note}
         if outcome == "crash":
@@ -1190,9 +1241,18 @@ def evaluate(ctx, cases):
         if req is None:
             ctx.bump("model-skipped:" + note[:40])
             continue
+        if model is not None and model.startswith("ok"):
+            if outcome == "ok" and note.startswith("live:"):
+                if " ".join(model.split()[1:]) != note[5:]:
+                    ctx.broke(f"correspondence (place liveness): real rows `{note[5:]}`, model `{model[3:]}`:\n{src}")
+                else:
+                    ctx.bump("live-rows-compared")
+            model = "ok"
         if model == "ok":
             if outcome != "ok":
                 ctx.broke(f"correspondence Model/Linearity.lean vs linearity_checker.py: real rejects ({cls}), model accepts:\n{src}")
+        elif model == "bad-wf":
+            ctx.broke(f"the CFG the real compiler handed to check_cfg_linearity does not have the shape Prog.WF assumed by the theorems:\n{src}")
         elif model.startswith("err "):
             if outcome != "reject":
                 ctx.broke(f"correspondence Model/Linearity.lean vs linearity_checker.py: real accepts, model says {model}:\n{src}")
@@ -1200,6 +1260,46 @@ def evaluate(ctx, cases):
                 ctx.broke(f"correspondence (error class): real {cls}, model {model}:\n{src}")
         else:
             ctx.broke(f"model driver reply `{model}` on:\n{src}")
+
+
+def small_scope():
+    """every program of 5 control skeletons x 3 ownership modes x 4 slots x 5 actions, on one qubit `q0`
+    and on one struct `s0` (field a): exhaustive within that scope"""
+    q, sa, s = ("q0", ()), ("s0", ("a",)), ("s0", ())
+    menus = {
+        "q": [None, ("call", [], "use", [q]), ("call", [], "h", [q]), ("call", [q], "qubit", []), ("ret", [])],
+        "s": [None, ("call", [], "use", [sa]), ("call", [], "borS", [s]), ("call", [sa], "mk", []), ("call", [], "useS", [s])],
+    }
+
+    def skel(k, pre, a, b, post):
+        c = "c0"
+        body = {
+            0: [("if", c, a, b)],
+            1: [("while", c, a + b)],
+            2: [("wtrue", a + [("if", c, [("break",)], [])] + b)],
+            3: [("while", c, a + [("if", c, [("continue",)], [])] + b)],
+            4: [("while", c, [("if", c, a, b)])],
+        }[k]
+        return pre + body + post
+
+    out = []
+    for kind, menu in menus.items():
+        v = "q0" if kind == "q" else "s0"
+        for mode in ("owned", "borrowed", "local"):
+            for k in range(5):
+                for pre in menu:
+                    for a in menu:
+                        for b in menu:
+                            for post in menu:
+                                sl = [[x] if x else [] for x in (pre, a, b, post)]
+                                body = skel(k, *sl)
+                                if mode == "local":
+                                    body = [("call", [(v, ())], "qubit" if kind == "q" else "mkS", [])] + body
+                                    params = [("c0", False)]
+                                else:
+                                    params = [(v, mode == "borrowed"), ("c0", False)]
+                                out.append(({"params": params, "ret": None, "body": body}, ["scope:" + kind + ":" + mode + ":" + str(k)]))
+    return out
 
 
 def tie(ctx):
@@ -1210,7 +1310,17 @@ def tie(ctx):
         rp = ctx.replay_in["replay"]
         if "program" in rp:
             cases.append((_from_json(rp["program"]), rp.get("tags", []), "replay"))
-    n = ctx.n(260, 9000)
+    scope = small_scope()
+    if ctx.quick:
+        scope = ctx.rng.sample(scope, 100)
+    else:
+        ctx.extra["exhaustive"] = True
+        ctx.extra["exhaustive_note"] = (f"all {len(scope)} programs of the small scope: 5 control skeletons (if/else, while, while True + break, "
+                                        "while + continue, if inside while) x {owned parameter, borrowed parameter, local} x 4 statement slots x 5 actions, "
+                                        "once on a qubit variable and once on a struct with field access")
+    for prog, tags in scope:
+        cases.append((prog, tags, "scope"))
+    n = ctx.n(300, 12000)
     for i in range(n):
         size = ctx.rng.choice([2, 3, 4, 6, 8])
         prog, tags = gen_case(ctx.rng, size)
